@@ -63,20 +63,24 @@ def seq_property(ctx, plan, rule, assumptions, nontrivial_note=""):
     if dl: cov["deadline_hit"] = True
     return dict(coverage=cov, assumptions=assumptions, violations=viol, infra=infra)
 
-def seq_replay(ctx, path):
-    """re-run a replay file twice in fresh processes without the explorer"""
-    variant = "rel"
-    for line in open(path):
-        if line.startswith("variant "): variant = line.split()[1]
-    b = ctx.build("h_seq", variant)
+def replay_file(ctx, path):
+    """re-run a replay file twice in fresh processes without the explorer; the two runs must agree"""
+    lines = open(path).read().splitlines()
+    variant = next((l.split()[1] for l in lines if l.startswith("variant ")), "rel")
+    cfg = next((l[4:] for l in lines if l.startswith("cfg ")), "")
+    env = dict(l[4:].split("=", 1) for l in lines if l.startswith("env ") and "=" in l)
+    harness = next((l.split()[1] for l in lines if l.startswith("harness ")), "h_grid" if "workers=" in cfg else "h_seq")
+    sched = any(l.startswith("sched 1") for l in lines)
+    b = ctx.build(harness, variant, sched=sched)
     outs = []
     for _ in range(2):
-        code, data, out = ctx.run_harness(b, ["--prop", ctx.pid, "--replay", path])
+        code, data, out = ctx.run_harness(b, ["--prop", ctx.pid, "--replay", path], env=env)
         outs.append((code, [l for l in out.splitlines() if l.startswith("REPLAY")]))
     print(outs[0][1][0] if outs[0][1] else f"replay exited {outs[0][0]}")
     if outs[0] != outs[1]:
         print("INFRA-ERROR: replay is not deterministic:", outs); return 2
     return 1 if outs[0][0] != 0 else 0
+seq_replay = replay_file
 
 COMMON_ASSUME = [
     "Linux x86-64, gcc, C build of src/static.c with the suite's release flags (-O2 -DNDEBUG -DMI_BUILD_RELEASE) unless a variant says otherwise",
@@ -99,11 +103,190 @@ def run_C01(ctx):
         ("dbg", "P1", "S0", 4 if q else 6, pr, {}), ("sec", "P1", "S0", 4 if q else 6, pr, {}),
         ("dbg", "P2", "S0", 3 if q else 4, pr, {}), ("sec", "P3r", "S0", 3 if q else 4, pr, {}),
     ]
-    return seq_property(ctx, plan,
-        rule="all sequences of operations of each profile alphabet (P1 page life-cycle {malloc 8K/48, fill, free(i), collect}, P2 spans {64K,100K,1M,17M,40M}, P3 small, P3r realloc, P7t threads, P4h heaps) up to depth D from start states S0..S4; node oracle: every live block's whole usable range holds its pattern, new blocks are disjoint from live ones, aligned, inside accessible memory.",
+    grid = [("rel", "entry", not q, {}), ("rel", "align", False, {}), ("dbg", "entry", False, {}), ("sec", "entry", False, {})]
+    return mixed_property(ctx, plan, grid,
+        rule="inputs: every allocation entry point (30) x boundary size grid x release variant, and the (size, alignment, offset) grid of C03, in carried-over heap states; histories: all sequences of operations of each profile alphabet (P1 page life-cycle {malloc 8K/48, fill, free(i), collect}, P2 spans {64K,100K,1M,17M,40M}, P3 small, P3r realloc, P7t threads, P4h heaps) up to depth D from start states S0..S4; node oracle: every live block's whole usable range holds its pattern, new blocks are disjoint from live ones, aligned, inside accessible memory.",
         assumptions=COMMON_ASSUME + ["free(i) is enumerated for all i while at most `free_window` blocks are live, else for the first and last window/2"])
 
+# ------------------------------------------------------------------------------------------------
+# grid enumerations (h_grid)
+# ------------------------------------------------------------------------------------------------
+def grid_jobs(ctx, plan):
+    """plan: list of (variant, mode, full(bool), env)"""
+    jobs = []
+    for (variant, mode, full, env) in plan:
+        b = ctx.build("h_grid", variant)
+        args = ["--prop", ctx.pid, "--mode", mode, "--workers", 16] + (["--full"] if full else [])
+        tag = f"{variant}/grid:{mode}{'/full' if full else ''}" + ("/" + ",".join(f"{k}={v}" for k, v in env.items()) if env else "")
+        jobs.append(dict(bin=b, args=args, env=env, tag=tag, timeout=(400 if ctx.quick else 3000)))
+    return jobs
+
+def mixed_property(ctx, seq_plan, grid_plan, rule, assumptions):
+    tot, samples, viol, infra, per_run, dl = agg_runs(ctx, grid_jobs(ctx, grid_plan) + seq_jobs(ctx, seq_plan))
+    cov = dict(
+        evaluations=tot["nodes"], distinct_nontrivial=tot["nontrivial"] + tot["states"],
+        states=max(tot["states"] + tot["nontrivial"], 1) if tot["nodes"] else 0, transitions=tot["transitions"], traces_validated_against_impl=tot["nodes"],
+        rule=rule + " distinct_nontrivial = (grid cases counted as non-trivial by the harness: moved/over-aligned/large/overflowing cases; every grid case is a distinct argument tuple) + (distinct allocator-state fingerprints of the sequence exploration).",
+        samples=samples, exhaustive=not dl, oracle_checks=tot["checks"], runs=per_run,
+        explanation="grid cases are all members of a finite argument grid, executed in order inside 16 worker processes (state carries over between cases, so the heap state varies); sequence runs are fork-per-node DFS; everything executes on the real allocator")
+    return dict(coverage=cov, assumptions=assumptions, violations=viol, infra=infra)
+
+grid_replay = replay_file
+
+def run_C03(ctx):
+    q = ctx.quick
+    grid = [("rel", "align", not q, {}), ("sec", "align", False, {})] + ([] if q else [("dbg", "align", True, {})]) + ([("dbg", "align", False, {})] if q else [])
+    seq = [("rel", "P5", "S0", 4 if q else 5, [] if q else ["--prune"], {}), ("rel", "P5", "S1", 3 if q else 4, [], {})]
+    return mixed_property(ctx, seq, grid,
+        rule="(size, alignment, offset) grid: sizes = boundary grid (bin sizes +-1, page-kind and huge boundaries), alignments 2^0..2^27 (= 4x segment), offsets {0,8,16,24,40,size/2,size} (offset 0 only beyond half a segment), x 12 aligned entry points x 2 free-list phases; each result checked for (p+o)%a==0, usable>=n, overlap, accessibility, full-range pattern, mi_expand, realloc_aligned(_at) keeps alignment+contents, release through every free variant; plus profile P5 sequences (aligned allocs interleaved with frees/realloc_aligned).",
+        assumptions=COMMON_ASSUME + ["offsets are multiples of 8 (an odd offset makes the returned pointer itself unaligned, which debug builds reject by design)",
+                                     "mi_realloc_aligned is only applied to blocks that already have that alignment (for other blocks mimalloc documents 'use offset of previous allocation')"])
+
+def run_C04(ctx):
+    q = ctx.quick
+    grid = [("rel", "zchain", not q, {}), ("rel", "zero", not q, {}), ("sec", "zchain", False, {}), ("dbg", "zchain", False, {}), ("sec", "zero", False, {}), ("dbg", "zero", False, {}),
+            ("rel", "zchain", False, {"VF_RESET_ZERO": "1", "MIMALLOC_PURGE_DELAY": "0", "MIMALLOC_PURGE_DECOMMITS": "0"}),
+            ("rel", "zero", False, {"VF_RESET_ZERO": "0", "MIMALLOC_PURGE_DELAY": "0", "MIMALLOC_PURGE_DECOMMITS": "0"}),
+            ("rel", "zero", False, {"MIMALLOC_PURGE_DELAY": "0"})]
+    seq = [("rel", "P4z", "S0", 4 if q else 5, ["--dirty"] + ([] if q else ["--prune"]), {}), ("rel", "P4z", "S2", 3 if q else 5, ["--dirty"], {}),
+           ("rel", "P4zh", "S0", 3 if q else 4, ["--dirty"], {}), ("rel", "P4z", "S3", 3 if q else 4, ["--dirty"], {}),
+           ("rel", "P4z", "S0", 3 if q else 4, ["--dirty"], {"MIMALLOC_PURGE_DELAY": "0", "MIMALLOC_PURGE_DECOMMITS": "0", "VF_RESET_ZERO": "0"})]
+    return mixed_property(ctx, seq, grid,
+        rule="zchain: every strictly increasing chain of length 2..3 (thorough: ..4) over a size ladder x 6 rezalloc/recalloc variants on memory of the involved classes dirtied with 0xFF; zero: 16 zero-initialising entry points x boundary size grid x {recycled, after forced collect}; sequences: profile P4z/P4zh (zalloc/calloc/zalloc_aligned/rezalloc/recalloc/free with the dirty-before-free discipline) from S0/S2/S3, also with immediate purge by reset (MADV_FREE keeps contents).",
+        assumptions=COMMON_ASSUME + ["zero-tracked blocks are only written within their requested size (the statement is about bytes between the previous and the new *requested* size)"])
+
+def run_C05(ctx):
+    q = ctx.quick
+    grid = [("rel", "realloc", not q, {}), ("sec", "realloc", False, {}), ("dbg", "realloc", False, {})]
+    seq = [("rel", "P3r", "S0", 4 if q else 6, [] if q else ["--prune"], {}), ("rel", "P3r", "S1", 3 if q else 5, [], {})]
+    return mixed_property(ctx, seq, grid,
+        rule="all ordered (old,new) pairs over the boundary size grid x 12 realloc-family variants (quick: mi_realloc on all pairs, the others on 1/6 of them); per case: result non-NULL, usable>=new, first min(old,new) bytes equal, grown part of zero-tracked blocks zero, heap-walk block count unchanged (old released iff pointer changed), new block reported live, mi_expand only within usable; every 7th case additionally a failing call (size > PTRDIFF_MAX / overflowing count) leaves the block live and intact, mi_reallocf frees it; plus P3r sequences.",
+        assumptions=COMMON_ASSUME + ["mi_expand is expected to succeed only in builds without padding (rel)"])
+
+def run_C06(ctx):
+    q = ctx.quick
+    grid = [("rel", "badargs", False, {}), ("sec", "badargs", False, {}), ("dbg", "badargs", False, {}), ("rel", "entry", not q, {})]
+    return mixed_property(ctx, [], grid,
+        rule="badargs: all (count,size) pairs from a 16-value boundary set (and around SIZE_MAX/size, PTRDIFF_MAX/size) whose product overflows or exceeds PTRDIFF_MAX x 16 count*size entry points; 39 sizes above PTRDIFF_MAX x 22 size entry points; 17 non-power-of-two/zero alignments x 5 sizes x 12 aligned entry points; posix_memalign alignments 1,2,4. Oracle: NULL (posix_memalign EINVAL/ENOMEM with the out-parameter equal to its sentinel, errno for reallocarray/reallocarr), heap-walk block set identical before/after, the block being re-allocated still live and intact. entry: converse -- every allocation entry point x size grid succeeds when the OS refuses nothing.",
+        assumptions=COMMON_ASSUME + ["mi_new_n / mi_new_reallocn are excluded: by contract they abort/throw instead of returning NULL",
+                                     "realloc_aligned family with alignment <= sizeof(void*) is 'no alignment requested' by design and excluded; debug builds: alignment 0 for mi_memalign/mi_aligned_alloc traps inside an assertion (excluded in the dbg variant)"])
+
+# ------------------------------------------------------------------------------------------------
+# C10 (sequential part), C12, C13
+# ------------------------------------------------------------------------------------------------
+def run_C12(ctx):
+    q = ctx.quick
+    pr = [] if q else ["--prune"]
+    AB = {"MIMALLOC_VISIT_ABANDONED": "1"}
+    ABN = {"MIMALLOC_VISIT_ABANDONED": "1", "MIMALLOC_MAX_SEGMENT_RECLAIM": "0"}
+    ABO = {"MIMALLOC_VISIT_ABANDONED": "1", "MIMALLOC_MAX_SEGMENT_RECLAIM": "0", "MIMALLOC_DISALLOW_ARENA_ALLOC": "1"}
+    plan = [
+        ("rel", "P1", "S0", 5 if q else 7, ["--observe", "walk"] + pr, {}), ("rel", "P6w", "S0", 4 if q else 6, ["--observe", "walk"] + pr, {}),
+        ("rel", "P6x", "S0", 4 if q else 5, ["--observe", "walk"] + pr, {}), ("rel", "P2", "S0", 3 if q else 4, ["--observe", "walk"], {}),
+        ("rel", "P4h", "S0", 4 if q else 6, ["--observe", "walk"] + pr, {}), ("rel", "P1", "S1", 3 if q else 5, ["--observe", "walk"], {}),
+        ("rel", "P1", "S3", 3 if q else 5, ["--observe", "walk"], {}), ("rel", "P1", "S4", 3 if q else 5, ["--observe", "walk"], {}),
+        ("rel", "P3r", "S0", 3 if q else 4, ["--observe", "walk"], {}), ("rel", "P5", "S0", 3 if q else 4, ["--observe", "walk"], {}),
+        ("rel", "P7t", "S0", 4 if q else 5, ["--observe", "walk,abandoned"], AB), ("rel", "P7t", "S5", 4 if q else 5, ["--observe", "abandoned"], ABN),
+        ("rel", "P7t", "S0", 4 if q else 5, ["--observe", "abandoned"], ABO),
+        ("dbg", "P1", "S0", 4 if q else 5, ["--observe", "walk"], {}), ("sec", "P6w", "S0", 3 if q else 5, ["--observe", "walk"], {}),
+        ("dbg", "P7t", "S5", 3 if q else 4, ["--observe", "abandoned"], ABN),
+    ]
+    return seq_property(ctx, plan,
+        rule="all operation sequences of the profiles up to depth D; at every node, in a throw-away fork, every heap of the thread is walked with mi_heap_visit_blocks and compared with the reference model (each live block reported once by an enclosing range, no range without a live block except heap descriptors in the backing heap, area.used sum == visited blocks, early stop after k visitor calls for k=1..6); hole patterns: 8-block pages (all masks reachable), 64 x 1 KiB (one full bitmap word) and 127 x 512 B pages with free_every(k,phase); abandoned walk: blocks of exited threads reported exactly once by mi_abandoned_visit_blocks or by the adopting heap, for arena segments (one and two bitmap fields, start state S5) and OS segments.",
+        assumptions=COMMON_ASSUME + ["states with a pending cross-thread free (remote_free not yet followed by a collect of that heap) only require that no live block is missing; extra reports and used counts are outside the statement there",
+                                     "the abandoned-walk runs set MIMALLOC_VISIT_ABANDONED=1 (required by the API) and, where stated, MIMALLOC_MAX_SEGMENT_RECLAIM=0 so that several abandoned segments coexist"])
+
+def run_C10(ctx):
+    q = ctx.quick
+    pr = [] if q else ["--prune"]
+    plan = [
+        ("rel", "P4h", "S0", 5 if q else 7, ["--observe", "owner,walk"] + pr, {}), ("rel", "P4h", "S4", 4 if q else 6, ["--observe", "owner,walk"] + pr, {}),
+        ("rel", "P4h", "S1", 4 if q else 5, ["--observe", "owner"], {}), ("rel", "P4h", "S3", 4 if q else 5, ["--observe", "owner"], {}),
+        ("dbg", "P4h", "S0", 4 if q else 6, ["--observe", "owner,walk"] + pr, {}), ("sec", "P4h", "S0", 4 if q else 6, ["--observe", "owner"] + pr, {}),
+    ]
+    return seq_property(ctx, plan,
+        rule="sequential part: all sequences over {heap_new (2 slots), heap_malloc(h,8K/48), malloc (default heap), free(i), heap_delete(h), heap_destroy(h), set_default(h), collect(1)} up to depth D; model: blocks carry a heap id, delete relabels to the backing heap, destroy removes exactly that heap's blocks, deleting the default heap falls back to the backing heap; node oracle: all live blocks intact, mi_heap_contains_block/mi_heap_check_owned true for exactly the model's heap, heap walks agree with the model.",
+        assumptions=COMMON_ASSUME)
+
+OPTS13 = [
+    ("MIMALLOC_PURGE_DELAY", ["-1", "0", "5"]), ("MIMALLOC_PURGE_DECOMMITS", ["0", "1"]), ("MIMALLOC_EAGER_COMMIT", ["0", "1"]),
+    ("MIMALLOC_EAGER_COMMIT_DELAY", ["0", "1"]), ("MIMALLOC_ARENA_EAGER_COMMIT", ["0", "1", "2"]), ("MIMALLOC_DISALLOW_ARENA_ALLOC", ["0", "1"]),
+    ("MIMALLOC_ARENA_RESERVE", ["64MiB", "1GiB"]), ("MIMALLOC_ABANDONED_RECLAIM_ON_FREE", ["0", "1"]), ("MIMALLOC_TARGET_SEGMENTS_PER_THREAD", ["0", "2"]),
+    ("VF_RESET_ZERO", ["0", "1"]),
+]
+def pairwise(opts, seed=0):
+    """greedy pairwise covering array; deterministic"""
+    import itertools, random
+    rnd = random.Random(seed)
+    names = [o[0] for o in opts]
+    uncovered = set()
+    for (i, a), (j, b) in itertools.combinations(list(enumerate(opts)), 2):
+        for va in a[1]:
+            for vb in b[1]: uncovered.add((i, va, j, vb))
+    rows = []
+    while uncovered:
+        best, bestc = None, -1
+        for _ in range(60):
+            (i, va, j, vb) = rnd.choice(sorted(uncovered))
+            row = [rnd.choice(o[1]) for o in opts]; row[i] = va; row[j] = vb
+            c = sum(1 for (x, vx, y, vy) in uncovered if row[x] == vx and row[y] == vy)
+            if c > bestc: best, bestc = row, c
+        rows.append(best)
+        uncovered = {(x, vx, y, vy) for (x, vx, y, vy) in uncovered if not (best[x] == vx and best[y] == vy)}
+    return [dict(zip(names, r)) for r in rows]
+
+def all_configs(opts):
+    import itertools
+    names = [o[0] for o in opts]
+    return [dict(zip(names, vals)) for vals in itertools.product(*[o[1] for o in opts])]
+
+def run_C13(ctx):
+    q = ctx.quick
+    cfgs = pairwise(OPTS13, seed=ctx.seed)
+    plan = []
+    for k, env in enumerate(cfgs):
+        variant = ("rel", "dbg", "sec")[k % 3]
+        plan.append((variant, "P8o", "S0", 4 if q else 5, ["--observe", "monitor,walk"], env))
+        if not q or k % 3 == 0: plan.append(("rel" if variant != "rel" else "dbg", "P7t", "S0", 3 if q else 4, ["--observe", "monitor"], env))
+    if not q:
+        for k, env in enumerate(all_configs(OPTS13[:9])):     # full product of the 9 allocator options (576) at small depth
+            plan.append((("rel", "dbg", "sec")[k % 3], "P8o", "S0", 3, ["--observe", "monitor"], env))
+    res = seq_property(ctx, plan,
+        rule="the C01/C04/C05/C12 oracles re-run under option configurations: quick = a pairwise-covering set of {purge_delay -1/0/5, purge_decommits, eager_commit, eager_commit_delay, arena_eager_commit 0/1/2, disallow_arena_alloc, arena_reserve 64MiB/1GiB, abandoned_reclaim_on_free, target_segments_per_thread 0/2, MADV_FREE keeps/drops contents} (thorough: + the full product of the nine allocator options) x all sequences of profile P8o {malloc 8K/64K/1M/17M, zalloc 8K, realloc, free(i), collect(0/1), tick(+1000ms)} (and P7t with threads) up to depth D, alternating rel/dbg/sec builds; additional monitor inside the OS shim: no madvise(DONTNEED/FREE), mprotect(PROT_NONE) or munmap range may intersect a live block; debug/secure builds revoke access on decommit so any touch of decommitted memory is a crash.",
+        assumptions=COMMON_ASSUME + ["options are set through MIMALLOC_* environment variables and parsed by the real option code at process start"])
+    res["coverage"]["configurations"] = len(cfgs)
+    res["coverage"]["configuration_samples"] = cfgs[:3]
+    return res
+
 PROPS = {
+    "C10": dict(level="model_checking", run=run_C10, replay=replay_file, engine="seq-explorer",
+        technique="bounded exhaustive exploration of heap create/allocate/delete/destroy/set_default sequences on the real allocator against a heap-labelled reference model (concurrent part: schedule explorer)",
+        text="Every sequence of the heap alphabet up to depth D from four start states, in release/debug/secure builds; at every node block ownership queries and heap walks must agree with the model and all live blocks must be intact.",
+        note="trusted: harness model; the concurrent clause (delete/collect racing remote frees) is decided by the schedule explorer harness when present"),
+    "C12": dict(level="model_checking", run=run_C12, replay=replay_file, engine="seq-explorer",
+        technique="bounded exhaustive exploration of allocation/free histories on the real allocator with the heap walk compared against a reference model at every node",
+        text="At every node of every explored history the complete output of mi_heap_visit_blocks (and mi_abandoned_visit_blocks) is compared with the model's live set, including used counts and early termination.",
+        note="trusted: harness model; bounded depth; page geometries 8, 64 and 127 blocks per page"),
+    "C13": dict(level="model_checking", run=run_C13, replay=replay_file, engine="seq-explorer",
+        technique="bounded exhaustive exploration of operation sequences repeated under a pairwise-covering (thorough: full-product) set of run-time option configurations, with an OS-level monitor for purges touching live blocks",
+        text="For each configuration every sequence of the merged profile up to depth D is executed with all block/zero/realloc/walk oracles plus the purge monitor.",
+        note="trusted: harness model, OS shim; pairwise (not full) coverage of option combinations in the quick tier"),
+    "C03": dict(level="model_checking", run=run_C03, replay=grid_replay, engine="seq-explorer",
+        technique="exhaustive enumeration of a finite (size, alignment, offset, entry point) grid plus bounded exhaustive operation sequences, all executed on the real allocator against a reference model",
+        text="Every triple of the grid and every P5 sequence up to the bound runs on the implementation in release, secure and debug builds; each returned pointer is checked for the alignment/size contract and then used through free/usable_size/expand/realloc.",
+        note="trusted: harness oracle; grid is a boundary grid, not all 2^64 sizes"),
+    "C04": dict(level="model_checking", run=run_C04, replay=grid_replay, engine="seq-explorer",
+        technique="exhaustive enumeration of monotone growth chains and zero-initialising entry points on dirtied memory, plus bounded exhaustive operation sequences, on the real allocator",
+        text="All growth chains over the ladder up to the length bound, all zero entry points over the size grid and all P4z sequences up to depth D are executed; every requested byte (and every grown byte) is compared with zero.",
+        note="trusted: harness oracle and dirtying discipline; chains bounded in length, ladder finite"),
+    "C05": dict(level="model_checking", run=run_C05, replay=grid_replay, engine="seq-explorer",
+        technique="exhaustive enumeration of (old size, new size, variant) triples plus bounded exhaustive operation sequences on the real allocator, with the heap walk as release oracle",
+        text="All size pairs of the grid are re-allocated through the realloc family; contents, release-exactly-once (observed through mi_heap_visit_blocks), failure behaviour and mi_expand are checked on every case.",
+        note="trusted: harness oracle; mi_heap_visit_blocks itself (decided separately by C12)"),
+    "C06": dict(level="model_checking", run=run_C06, replay=grid_replay, engine="seq-explorer",
+        technique="exhaustive enumeration of malformed/oversized argument tuples over boundary sets for every count*size, size and alignment entry point on the real allocator",
+        text="Every tuple of the boundary product that is malformed must return NULL/EINVAL/ENOMEM and leave the observable heap (heap-walk block set, contents of live blocks, the block being re-allocated) unchanged; the converse grid shows well-formed requests succeed.",
+        note="trusted: harness oracle; boundary sets are finite samples of the argument space chosen around every overflow edge"),
     "C01": dict(level="model_checking", run=run_C01, replay=seq_replay, engine="seq-explorer",
         technique="bounded exhaustive exploration of API operation sequences on the real allocator (fork-per-node DFS) against a reference model",
         text="Every sequence of the profile alphabets up to the stated depth, from five start states and in release/debug/secure builds, is executed on the real allocator; at every node all live blocks are checked for overlap, accessibility and contents. Bounded exhaustive, not a proof beyond the bound.",
